@@ -32,6 +32,7 @@ func c19(c *Ctx) {
 	c19wrappers(c)
 	c19synchronous(c)
 	c19seed(c)
+	c19setExpire(c)
 }
 
 // c19storeUse (R5): the lock touches its store only through the two scripts. Any other command issued on
